@@ -7,11 +7,12 @@ META = {
     "driver_id": "Edit",
     "coq_targets": ["Props/C01.vo", "Extract/Extract_Edit.vo"],
     "technique": 'Coq invariant / refinement proofs over the executable edit-machine model + step-by-step differential correspondence of the extracted model with the implementation + direct oracle on the implementation',
-    "level_text": "Machine-checked in Coq over the executable edit-machine model (coq/Props/C01.v, proofs in coq/Proofs/EditInverse.v; 18 theorems, all closed under the global context). obs_eq (pointwise equality of node set, edge set, every registered node/edge feature with None == absent, the whole segmentation array, the feature table) is an equivalence (C01_obs_eq_equivalence). For each of the seven primitive actions, under its documented precondition and the named invariants, applying it and inverting it yields a pre-state-equivalent state, and inverting the inverse yields a post-state-equivalent state: C01_basic_add_edge [edge absent before], C01_basic_del_edge, C01_basic_upd_attrs [no hypothesis], C01_basic_upd_seg [painted pixels hold the value the inverse writes back], C01_basic_add_node [new id, background pixels in the node's own frame], C01_basic_del_node [no incident edges, the node's own pixels], C01_basic_upd_track [new id not found downstream]; undo of AddEdge / AddNode restores graph, array and feature table literally (..._exact), undo of UpdateTrackIDs restores every attribute of every node; every inverse reads and writes only graph, array and feature table (C01_inverse_reads_core_only). Composite user actions on well-formed states (WF = all invariants of Proofs/EditInv.v): C01_user_delete_edge (plain and division case), C01_user_add_edge (join / new division, with and without the forced removal of the merge edge) and C01_user_update_attrs: the recorded group, inverted, restores the observable state. Composition principle for ActionGroup (C01_group: a chain of n-times-invertible members is an n-times-invertible group) and the Tr_inv / Tr_src hypotheses of the C02 timeline theorem for that notion (C01_timeline_hypotheses). C01_preconditions_necessary: four computed counterexamples showing that each dropped precondition breaks restoration in the model. NOT proved in Coq, resting only on the step-by-step differential correspondence of the extracted model with the implementation plus the undo/redo oracle on the implementation: the user-level statement for UserAddNode, UserDeleteNode, UserSwapPredecessors and UserUpdateSegmentation; redo (inverting the inverse) at the user level; and the per-member hypothesis of the composition principle for UpdateTrackIDs when its inverse runs in a state that is only observably - not attribute-for-attribute - equal to the recorded post-state (the relabelling walk depends on adjacency order, which undo of DeleteEdge does not restore), hence multi-step undo/redo timelines over arbitrary edits. The lookups' maxima are not restored by undo (by design; C06 covers the lookups). User level, all composites (Proofs/EditInverseNode.v): C01_user_swap, C01_user_delete_node, C01_user_add_node (on a well-formed state, inverting the recorded group restores the observable state) and C01_consistent_delete_edge / _add_edge / _swap / _delete_node / _add_node: TrI W_dict - the action can be undone, redone, undone ... any number of times, each time from any state with well-formed dictionaries that is observably equal to the expected one; this is the transition relation of the timeline theorem (C02_edit_machine_timeline). C01_consistent_paint and C01_consistent_update_attrs (the same for strokes - no precondition - and attribute updates). C01_sessions: over whole sessions of ANY edits of the public interface with undo / redo interleaved in any order and number, the state after each call is observably the state under the cursor of the list+cursor timeline (every undo shows the state before, every redo the state after). C01_user_actions_are_generated: the composite actions of the model equal the code translated on every run from user_actions/*.py.",
+    "level_text": "Machine-checked in Coq over the executable edit-machine model (coq/Props/C01.v, proofs in coq/Proofs/EditInverse.v; 18 theorems, all closed under the global context). obs_eq (pointwise equality of node set, edge set, every registered node/edge feature with None == absent, the whole segmentation array, the feature table) is an equivalence (C01_obs_eq_equivalence). For each of the seven primitive actions, under its documented precondition and the named invariants, applying it and inverting it yields a pre-state-equivalent state, and inverting the inverse yields a post-state-equivalent state: C01_basic_add_edge [edge absent before], C01_basic_del_edge, C01_basic_upd_attrs [no hypothesis], C01_basic_upd_seg [painted pixels hold the value the inverse writes back], C01_basic_add_node [new id, background pixels in the node's own frame], C01_basic_del_node [no incident edges, the node's own pixels], C01_basic_upd_track [new id not found downstream]; undo of AddEdge / AddNode restores graph, array and feature table literally (..._exact), undo of UpdateTrackIDs restores every attribute of every node; every inverse reads and writes only graph, array and feature table (C01_inverse_reads_core_only). Composite user actions on well-formed states (WF = all invariants of Proofs/EditInv.v): C01_user_delete_edge (plain and division case), C01_user_add_edge (join / new division, with and without the forced removal of the merge edge) and C01_user_update_attrs: the recorded group, inverted, restores the observable state. Composition principle for ActionGroup (C01_group: a chain of n-times-invertible members is an n-times-invertible group) and the Tr_inv / Tr_src hypotheses of the C02 timeline theorem for that notion (C01_timeline_hypotheses). C01_preconditions_necessary: four computed counterexamples showing that each dropped precondition breaks restoration in the model. NOT proved in Coq, resting only on the step-by-step differential correspondence of the extracted model with the implementation plus the undo/redo oracle on the implementation: the user-level statement for UserAddNode, UserDeleteNode, UserSwapPredecessors and UserUpdateSegmentation; redo (inverting the inverse) at the user level; and the per-member hypothesis of the composition principle for UpdateTrackIDs when its inverse runs in a state that is only observably - not attribute-for-attribute - equal to the recorded post-state (the relabelling walk depends on adjacency order, which undo of DeleteEdge does not restore), hence multi-step undo/redo timelines over arbitrary edits. The lookups' maxima are not restored by undo (by design; C06 covers the lookups). User level, all composites (Proofs/EditInverseNode.v): C01_user_swap, C01_user_delete_node, C01_user_add_node (on a well-formed state, inverting the recorded group restores the observable state) and C01_consistent_delete_edge / _add_edge / _swap / _delete_node / _add_node: TrI W_dict - the action can be undone, redone, undone ... any number of times, each time from any state with well-formed dictionaries that is observably equal to the expected one; this is the transition relation of the timeline theorem (C02_edit_machine_timeline). C01_consistent_paint and C01_consistent_update_attrs (the same for strokes - no precondition - and attribute updates). C01_sessions: over whole sessions of ANY edits of the public interface with undo / redo interleaved in any order and number, the state after each call is observably the state under the cursor of the list+cursor timeline (every undo shows the state before, every redo the state after). C01_user_actions_are_generated: the composite actions of the model equal the code translated on every run from user_actions/*.py. C01_core_is_generated: one level further down, the queries, the node-id counter, Tracks.undo / redo and the seven basic actions with their inverses of the model equal the code translated on every run from solution_tracks.py, tracks.py, _track_annotator.py and actions/*.py (Gen/Core_gen.v; statement in Proofs/CoreTieBundle.v).",
     "level_note": 'Trusted: Coq kernel, extraction (ExtrOcamlBasic only), OCaml driver drv_Edit.ml, Python harness and oracles. Modelled, not verified: networkx DiGraph dict semantics, numpy indexing, skimage regionprops (symbolic: value = function of key, mask, spacing), psygnal. The theorems are about the hand-written model coq/Model/Edit.v; the tie to /repo is the step-by-step differential execution of the extracted model against the implementation on every run. Tied to the source in a second way: the history mechanism (action_history.py) and the seven composite user actions (user_actions/*.py) are re-translated on every run by fail-closed translators (harness/translate_history.py, translate_user_actions.py; closed idiom tables; runtime combinators Model/PyRt.v) and proved equal to the hand-written model for all arguments (Proofs/HistoryTie.v, UserActionsTie.v); trusted there: the idiom tables and combinators, and the stated conventions (get_time / successors on a missing node do not raise, StopIteration reported as KeyError, feature keys never None).',
     "design_ref": "DESIGN.md section 9 (C01)",
     "assumptions": ['the caller does not pass a lineage id to UserAddNode (outside its documented domain)', 'track_id and lineage_id features stay enabled during editing sessions', 'labels/ids are positive; times are frame indices within the array'],
-    "trusted": ["translators harness/translate_history.py and harness/translate_user_actions.py (closed idiom tables in their docstrings; fail closed) with the runtime combinators coq/Model/PyRt.v",
+    "trusted": ["translator harness/translate_core.py (closed idiom table; fail closed) with coq/Model/PyRt3.v; hand models left under it: regionprops / edge annotator update, bulk compute, networkx and array primitives",
+                "translators harness/translate_history.py and harness/translate_user_actions.py (closed idiom tables in their docstrings; fail closed) with the runtime combinators coq/Model/PyRt.v",
                 "correspondence harness harness/editmachine.py (scenario generator, canonicalisation, numeric references for regionprops / IoU)",
                 "oracles harness/edit_oracles.py"],
 }
@@ -30,6 +31,12 @@ def pre_build(ctx):
     translate_user_actions.regenerate(repo=str(__import__("common").REPO))
     if not translate_user_actions.LAST.get("ok"):
         raise RuntimeError("translator refused user_actions/*.py: %s" % translate_user_actions.LAST.get("msg"))
+    # the code the user actions call: queries, id counter, undo / redo, basic actions (Gen/Core_gen.v)
+    import translate_core
+
+    ok, msg = translate_core.regenerate()
+    if not ok:
+        raise RuntimeError("translator refused the core sources: %s" % msg)
 
 
 def run(ctx):
